@@ -611,3 +611,256 @@ pub fn gen_program(rng: &mut Rng, knobs: &GenKnobs) -> Program {
     }
     p
 }
+
+// ---------------------------------------------------------------------------------------------
+// programs with a model declaration (C17 / C18)
+
+pub struct ModelProg {
+    /// the flat view of the theory (model elements, morphisms, dom / cod and member relations as
+    /// ordinary sorts and relations) followed by the implicit inheritance rules
+    pub program: Program,
+    pub text: String,
+    pub n_user_rules: usize,
+    pub model_sort: usize,
+    pub mor_sort: usize,
+    pub dom_rel: usize,
+    pub cod_rel: usize,
+    pub member_rels: Vec<usize>,
+    pub constants: Vec<usize>,
+}
+
+fn mterm(p: &Program, mp: (usize, usize), t: &Term) -> String {
+    match t {
+        Term::Var(v) => v.clone(),
+        Term::Wild => "_".into(),
+        Term::App(r, args) => {
+            if *r == mp.0 {
+                format!("dom({})", mterm(p, mp, &args[0]))
+            } else if *r == mp.1 {
+                format!("cod({})", mterm(p, mp, &args[0]))
+            } else {
+                let a: Vec<String> = args.iter().map(|x| mterm(p, mp, x)).collect();
+                format!("{}({})", p.rels[*r].name, a.join(", "))
+            }
+        }
+    }
+}
+
+fn matom(p: &Program, mp: (usize, usize), members: &[usize], mor_sort: usize, model_sort: usize, a: &Atom) -> String {
+    match a {
+        Atom::Pred(r, args) if members.contains(r) => {
+            let rest: Vec<String> = args[1..].iter().map(|x| mterm(p, mp, x)).collect();
+            format!("{}.{}({})", mterm(p, mp, &args[0]), p.rels[*r].name, rest.join(", "))
+        }
+        Atom::Pred(r, args) => {
+            let a: Vec<String> = args.iter().map(|x| mterm(p, mp, x)).collect();
+            format!("{}({})", p.rels[*r].name, a.join(", "))
+        }
+        Atom::Eq(l, r) => format!("{} = {}", mterm(p, mp, l), mterm(p, mp, r)),
+        Atom::Defined(t) => format!("{}!", mterm(p, mp, t)),
+        Atom::DefinedAs(v, t) => format!("{} := {}!", v, mterm(p, mp, t)),
+        Atom::SortOf(v, s) => {
+            if *s == mor_sort {
+                format!("{}: Mor({})", v, p.sorts[model_sort].name)
+            } else {
+                format!("{}: {}", v, p.sorts[*s].name)
+            }
+        }
+    }
+}
+
+pub fn gen_model_program(rng: &mut Rng) -> ModelProg {
+    use std::fmt::Write;
+    let mut p = Program::default();
+    let two_carriers = rng.chance(1, 3);
+    p.sorts.push(Sort { name: "Ca".into(), kind: SortKind::Plain });
+    if two_carriers {
+        p.sorts.push(Sort { name: "Cb".into(), kind: SortKind::Plain });
+    }
+    let model_sort = p.sorts.len();
+    p.sorts.push(Sort { name: "Mo".into(), kind: SortKind::Plain });
+    let mor_sort = p.sorts.len();
+    p.sorts.push(Sort { name: "MoMor".into(), kind: SortKind::Plain });
+    let second = if two_carriers && rng.chance(1, 2) { 1 } else { 0 };
+    // member predicates
+    let mut member_rels = Vec::new();
+    member_rels.push(p.rels.len());
+    p.rels.push(Rel { name: "ma".into(), kind: RelKind::Pred, args: vec![model_sort, 0], result: None });
+    let has_mb = rng.chance(2, 3);
+    if has_mb {
+        member_rels.push(p.rels.len());
+        p.rels.push(Rel { name: "mb".into(), kind: RelKind::Pred, args: vec![model_sort, 0, second], result: None });
+    }
+    let ga = p.rels.len();
+    p.rels.push(Rel { name: "ga".into(), kind: RelKind::Pred, args: vec![0], result: None });
+    let gb = p.rels.len();
+    p.rels.push(Rel { name: "gb".into(), kind: RelKind::Pred, args: vec![0, second], result: None });
+    let with_constants = rng.chance(1, 2);
+    let mut constants = Vec::new();
+    if with_constants {
+        for n in ["oa", "ob"] {
+            constants.push(p.rels.len());
+            p.rels.push(Rel { name: n.into(), kind: RelKind::Func, args: vec![], result: Some(model_sort) });
+        }
+        constants.push(p.rels.len());
+        p.rels.push(Rel { name: "fm".into(), kind: RelKind::Func, args: vec![], result: Some(mor_sort) });
+    }
+    let dom_rel = p.rels.len();
+    p.rels.push(Rel { name: "mo_mor_dom".into(), kind: RelKind::Func, args: vec![mor_sort], result: Some(model_sort) });
+    let cod_rel = p.rels.len();
+    p.rels.push(Rel { name: "mo_mor_cod".into(), kind: RelKind::Func, args: vec![mor_sort], result: Some(model_sort) });
+    let v = |n: &str| Term::Var(n.to_string());
+    let ma = member_rels[0];
+    let mut rules: Vec<Rule> = Vec::new();
+    let names = ["ra", "rb", "rc", "rd", "re", "rf", "rg"];
+    let mut templates: Vec<usize> = vec![0, 2, 3];
+    if has_mb && second == 0 {
+        templates.extend([1, 6]);
+    }
+    if second == 0 {
+        templates.push(5);
+    }
+    if with_constants {
+        templates.push(4);
+    }
+    rng.shuffle(&mut templates);
+    templates.truncate(rng.range(1, 4) as usize);
+    if with_constants {
+        // dom / cod of the named morphism are derived by rules, as in subset_rules.eql
+        rules.push(Rule {
+            name: Some("fmdom".into()),
+            stmts: vec![
+                Stmt::If(Atom::Eq(v("a"), Term::App(constants[0], vec![]))),
+                Stmt::If(Atom::Eq(v("f"), Term::App(constants[2], vec![]))),
+                Stmt::Then(Atom::Eq(Term::App(dom_rel, vec![v("f")]), v("a"))),
+            ],
+        });
+        rules.push(Rule {
+            name: Some("fmcod".into()),
+            stmts: vec![
+                Stmt::If(Atom::Eq(v("b"), Term::App(constants[1], vec![]))),
+                Stmt::If(Atom::Eq(v("f"), Term::App(constants[2], vec![]))),
+                Stmt::Then(Atom::Eq(Term::App(cod_rel, vec![v("f")]), v("b"))),
+            ],
+        });
+    }
+    for (i, t) in templates.iter().enumerate() {
+        let stmts = match t {
+            0 => vec![
+                Stmt::If(Atom::SortOf("m".into(), model_sort)),
+                Stmt::If(Atom::Pred(ma, vec![v("m"), v("x")])),
+                Stmt::Then(Atom::Pred(ga, vec![v("x")])),
+            ],
+            1 => vec![
+                Stmt::If(Atom::SortOf("m".into(), model_sort)),
+                Stmt::If(Atom::Pred(ma, vec![v("m"), v("x")])),
+                Stmt::If(Atom::Pred(member_rels[1], vec![v("m"), v("x"), v("y")])),
+                Stmt::Then(Atom::Pred(ma, vec![v("m"), v("y")])),
+            ],
+            2 => vec![
+                Stmt::If(Atom::SortOf("m".into(), model_sort)),
+                Stmt::If(Atom::SortOf("n".into(), model_sort)),
+                Stmt::If(Atom::Pred(ma, vec![v("m"), v("x")])),
+                Stmt::If(Atom::Pred(ma, vec![v("n"), v("x")])),
+                Stmt::If(Atom::Pred(ga, vec![v("x")])),
+                Stmt::Then(Atom::Pred(gb, if second == 0 { vec![v("x"), v("x")] } else { vec![v("x"), v("w")] })),
+            ],
+            3 => vec![
+                Stmt::If(Atom::Pred(ga, vec![v("x")])),
+                Stmt::If(Atom::SortOf("m".into(), model_sort)),
+                Stmt::If(Atom::Pred(ma, vec![v("m"), Term::Wild])),
+                Stmt::Then(Atom::Pred(ma, vec![v("m"), v("x")])),
+            ],
+            4 => vec![
+                Stmt::If(Atom::Pred(ma, vec![Term::App(constants[0], vec![]), v("x")])),
+                Stmt::If(Atom::Pred(ma, vec![Term::App(constants[1], vec![]), v("x")])),
+                Stmt::Then(Atom::Pred(ga, vec![v("x")])),
+            ],
+            5 => vec![
+                Stmt::If(Atom::SortOf("m".into(), model_sort)),
+                Stmt::If(Atom::Pred(ma, vec![v("m"), v("x")])),
+                Stmt::If(Atom::Pred(gb, vec![v("x"), v("y")])),
+                Stmt::Then(Atom::Pred(ma, vec![v("m"), v("y")])),
+            ],
+            _ => vec![
+                Stmt::If(Atom::SortOf("m".into(), model_sort)),
+                Stmt::If(Atom::Pred(member_rels[1], vec![v("m"), v("x"), v("y")])),
+                Stmt::If(Atom::Pred(ma, vec![v("m"), v("x")])),
+                Stmt::Then(Atom::Eq(v("x"), v("y"))),
+            ],
+        };
+        // template 2 with a second carrier needs w bound
+        let mut stmts = stmts;
+        if *t == 2 && second != 0 {
+            stmts.insert(0, Stmt::If(Atom::Pred(gb, vec![Term::Wild, v("w")])));
+        }
+        rules.push(Rule { name: Some(names[i % names.len()].to_string()), stmts });
+    }
+    let n_user_rules = rules.len();
+    // text
+    let mut text = String::new();
+    let _ = writeln!(text, "type Ca;");
+    if two_carriers {
+        let _ = writeln!(text, "type Cb;");
+    }
+    let _ = writeln!(text, "model Mo {{");
+    for r in &member_rels {
+        let rel = &p.rels[*r];
+        let args: Vec<String> = rel.args[1..].iter().enumerate().map(|(i, s)| format!("{}: {}", ["x", "y", "z"][i], p.sorts[*s].name)).collect();
+        let _ = writeln!(text, "    pred {}({});", rel.name, args.join(", "));
+    }
+    let _ = writeln!(text, "}}");
+    for r in [ga, gb] {
+        let rel = &p.rels[r];
+        let args: Vec<String> = rel.args.iter().map(|s| p.sorts[*s].name.clone()).collect();
+        let _ = writeln!(text, "pred {}({});", rel.name, args.join(", "));
+    }
+    if with_constants {
+        let _ = writeln!(text, "func oa() -> Mo;\nfunc ob() -> Mo;\nfunc fm() -> Mor(Mo);");
+    }
+    for rule in &rules {
+        let _ = writeln!(text, "rule {} {{", rule.name.clone().unwrap());
+        for s in &rule.stmts {
+            match s {
+                Stmt::If(a) => {
+                    let _ = writeln!(text, "    if {};", matom(&p, (dom_rel, cod_rel), &member_rels, mor_sort, model_sort, a));
+                }
+                Stmt::Then(a) => {
+                    let _ = writeln!(text, "    then {};", matom(&p, (dom_rel, cod_rel), &member_rels, mor_sort, model_sort, a));
+                }
+                _ => {}
+            }
+        }
+        let _ = writeln!(text, "}}");
+    }
+    // implicit inheritance: p(A, xs) and f: A -> B  =>  p(B, xs)
+    for r in &member_rels {
+        let n = p.rels[*r].args.len();
+        let xs: Vec<Term> = (1..n).map(|i| v(["x", "y", "z"][i - 1])).collect();
+        let mut from = vec![v("a")];
+        from.extend(xs.clone());
+        let mut to = vec![v("b")];
+        to.extend(xs);
+        rules.push(Rule {
+            name: Some(format!("inherit_{}", p.rels[*r].name)),
+            stmts: vec![
+                Stmt::If(Atom::Pred(*r, from)),
+                Stmt::If(Atom::Eq(Term::App(dom_rel, vec![v("f")]), v("a"))),
+                Stmt::If(Atom::Eq(Term::App(cod_rel, vec![v("f")]), v("b"))),
+                Stmt::Then(Atom::Pred(*r, to)),
+            ],
+        });
+    }
+    p.rules = rules;
+    ModelProg {
+        program: p,
+        text,
+        n_user_rules,
+        model_sort,
+        mor_sort,
+        dom_rel,
+        cod_rel,
+        member_rels,
+        constants,
+    }
+}
